@@ -377,13 +377,13 @@ def zaxis_derivative_oracle():
     f = lambda p: (0.7 + (p[:, 0] - c[0]) - 0.5 * (p[:, 1] - c[1]) + 0.3 * (p[:, 2] - c[2])) * np.exp(-np.sum((p - c) ** 2, axis=1))
     itp = ag.interpolate(f(ag.points))
     out = {}
-    for label, q in (("z-axis above the centre", c + np.array([0.0, 0.0, 0.5])), ("z-axis below the centre", c - np.array([0.0, 0.0, 0.4])), ("generic point", c + np.array([0.3, 0.2, 0.5]))):
+    for label, q in (("z-axis above the centre", c + np.array([0.0, 0.0, 0.5])), ("z-axis below the centre", c - np.array([0.0, 0.0, 0.4])), ("generic point", c + np.array([0.3, 0.2, 0.5])), ("the centre itself", c.copy())):
         q = q[None, :]
         rep = np.asarray(itp(q, deriv=1), float).ravel()
         h = 1e-5
         fd = np.array([(itp(q + h * np.eye(3)[a]) - itp(q - h * np.eye(3)[a])) / (2 * h) for a in range(3)], float).ravel()
         rad_rep = float(np.asarray(itp(q, deriv=1, only_radial_deriv=True)).ravel()[0])
-        u = (q[0] - c) / np.linalg.norm(q[0] - c)
+        u = (q[0] - c) / np.linalg.norm(q[0] - c) if np.linalg.norm(q[0] - c) > 0 else np.array([0.0, 0.0, 1.0])     # the library's convention at r = 0 is theta = phi = 0
         out[label] = dict(reported=rep.tolist(), finite_difference=fd.tolist(), ok=bool(np.allclose(rep, fd, atol=1e-5)), radial_ok=bool(abs(rad_rep - float(fd @ u)) < 1e-5))
     return out
 
@@ -394,7 +394,7 @@ def job_zaxis(ctx: Ctx):
     with unpatched(an, ag, bg, ut, mg):
         out = zaxis_derivative_oracle()
     for label, r in out.items():
-        key = "interpolate:cartesian-derivative:" + ("z-axis" if "z-axis" in label else "generic")
+        key = "interpolate:cartesian-derivative:" + ("z-axis" if "z-axis" in label else "centre" if "centre" in label else "generic")
         if r["ok"]:
             ctx.ok(f"float code: reported Cartesian derivative == derivative of the same interpolant ({label})", how="ground enumeration (not a solver obligation)")
         else:
